@@ -65,7 +65,9 @@ type Tok struct {
 // Dec models decimal.Decimal. T == nil means concrete (C).
 type Dec struct {
 	C decimal.Decimal
-	T *Term // sort Real
+	T *Term // sort Real: exact value (used when arithmetic is non-linear)
+	I *Term // sort Int: coefficient of an integer-scaled symbolic decimal, value = I / 10^S
+	S int64
 }
 
 // Tm models time.Time restricted to UTC midnights: day number since 0001-01-01.
@@ -163,7 +165,7 @@ func writeKey(b *strings.Builder, k value) {
 		}
 		fmt.Fprintf(b, "t%d;", k.C)
 	case Dec:
-		if k.T != nil {
+		if k.isSym() {
 			panic(unsupported{"symbolic decimal used as map key"})
 		}
 		fmt.Fprintf(b, "d%s;", k.C.String())
@@ -501,6 +503,8 @@ func writeValue(b *strings.Builder, v value, depth int) {
 	case Dec:
 		if v.T != nil {
 			b.WriteString("dec:" + v.T.S)
+		} else if v.I != nil {
+			fmt.Fprintf(b, "dec:%s/1e%d", v.I.S, v.S)
 		} else {
 			b.WriteString("dec:" + v.C.String())
 		}
